@@ -266,7 +266,136 @@ def run_c06(tier, seed):
     return out.finish()
 
 
+# --------------------------------------------------------------------- C08
+class Injector:
+    """Raises at the n-th statement / file operation of the scheduled part."""
+    SKIP = ('fremove', 'rmdir')      # environment assumption: removing an existing file succeeds
+
+    def __init__(self, n):
+        self.n = n
+        self.count = 0
+        self.fired = None
+
+    def __call__(self, kind, desc, client):
+        if desc in self.SKIP:
+            return None
+        self.count += 1
+        if self.count == self.n:
+            self.fired = (kind, desc)
+            import sqlite3, errno
+            if kind == 'sql':
+                return sqlite3.OperationalError('disk I/O error (injected)')
+            return OSError(errno.EIO, 'injected')
+        return None
+
+
+def _fault_runs(cfg, prog, seed, base_tid):
+    """Count the fault points of the workload, then run it once per point."""
+    inj = Injector(0)
+    t0 = concdriver.run_program(cfg, prog, sched.scripted([]), seed, base_tid, inject=inj)
+    out = [t0]
+    t0['fault'] = None
+    for n in range(1, inj.count + 1):
+        inj = Injector(n)
+        t = concdriver.run_program(cfg, prog, sched.scripted([]), seed, base_tid + n, inject=inj)
+        t['fault'] = [n, inj.fired]
+        out.append(t)
+    return out
+
+
+def c08_workloads(rng, tier):
+    big = 500000 + 40 * 100 + 7          # unstorable text (lone surrogate)
+    targets = [
+        ('set-inline', op('set', k=KA, v=5, ttl=[], tag=0)), ('set-file', op('set', k=KA, v=F2, ttl=[3], tag=1)),
+        ('set-text-file', op('set', k=KA, v=300000 + 36 * 100 + 1, ttl=[], tag=0)),
+        ('set-pickle-file', op('set', k=KB, v=400000 + 12 * 100 + 1, ttl=[], tag=0)),
+        ('add-file', op('add', k=KB, v=F3, ttl=[], tag=0)), ('add-present', op('add', k=KA, v=F3, ttl=[], tag=0)),
+        ('incr', op('incr', k=KB, d=1, df=[0])), ('incr-missing', op('incr', k=[1, 120], d=1, df=[])),
+        ('touch', op('touch', k=KA, ttl=[4])), ('pop', op('pop', k=KA, fx=0, ft=0)),
+        ('delete', op('delete', k=KA, mk='false')), ('delitem-missing', op('delete', k=[1, 120], mk='KeyError')),
+        ('push-file', op('push', v=F3, p=[], back=1, ttl=[], tag=0)), ('push-prefix', op('push', v=6, p=[97], back=0, ttl=[], tag=0)),
+        ('pull', op('pull', p=[], back=0, fx=0, ft=0)), ('peek', op('peek', p=[], back=1, fx=0, ft=0)),
+        ('peekitem', op('peekitem', last=1, fx=0, ft=0)), ('clear', op('clear')), ('evict', op('evict', tag=2)),
+        ('expire', op('expire')), ('cull', op('cull')), ('get', op('get', k=KA, fx=0, ft=0, mk='miss')),
+        ('set-badtag-file', op('set', k=KA, v=F2, ttl=[], tag=-1)), ('add-badtag-file', op('add', k=KB, v=F3, ttl=[], tag=-1)),
+        ('push-badtag-file', op('push', v=F3, p=[], back=1, ttl=[], tag=-1)),
+        ('set-unencodable-text', op('set', k=KA, v=big, ttl=[], tag=0)),
+        ('set-broken-stream', dict(op('set', k=KA, v=F2, ttl=[], tag=0), form=3)),
+        ('push-broken-stream', dict(op('push', v=F3, p=[], back=1, ttl=[], tag=0), form=3)),
+        ('tx-commit', None), ('tx-abort', None),
+    ]
+    inits = ['inline', 'file', 'both', 'queue']
+    out = []
+    for name, target in targets:
+        for init in inits:
+            if tier == 'quick' and rng.random() < 0.55:
+                continue
+            if target is None:
+                body = [op('txbegin'), op('set', k=KA, v=7, ttl=[], tag=0), op('incr', k=KB, d=1, df=[0])]
+                body += [op('txend')] if name == 'tx-commit' else [op('txraise')]
+                ops = body + [op('get', k=KA, fx=0, ft=0, mk='miss')]
+            else:
+                ops = [target, op('get', k=KA, fx=0, ft=0, mk='miss'), op('len')]
+            out.append((name, init, ops))
+    return out
+
+
+def run_c08(tier, seed):
+    out = Outcome('C08', tier, seed)
+    out.level = 'fault_enumeration'
+    rng = random.Random(seed * 15485863 + 8)
+    jobs = []
+    tid = 0
+    INITS['queue'] = [op('set', k=KA, v=F1, ttl=[], tag=2), op('push', v=F2, p=[], back=1, ttl=[], tag=0),
+                      op('push', v=3, p=[], back=1, ttl=[1], tag=2)]
+    names = []
+    for name, init, ops in c08_workloads(rng, tier):
+        for stats, policy in ((False, 'lrs'), (True, 'lru')) if tier == 'thorough' else ((rng.random() < 0.3, rng.choice(['lrs', 'lru'])),):
+            cfg = base_cfg(rng, False, init, stats=stats, policy=policy)
+            cfg['faulty'] = 1
+            jobs.append((cfg, {1: ops}, seed, tid))
+            names.append(name)
+            tid += 1000
+    res = pmap(_fault_runs, jobs, procs=14)
+    traces = [t for lst in res for t in lst]
+    fired = sum(1 for t in traces if t.get('fault') and t['fault'][1])
+    failed_calls = sum(1 for t in traces if t.get('fault') and any(
+        e['ev'] == 'ret' and isinstance(e.get('ret'), dict) and e['ret']['k'] in ('OSError', 'OperationalError', 'Timeout')
+        for e in t['ev']))
+    # concurrent and transactional histories: quiescent agreement is part of every C05/C06-style trace
+    jobs_rand = []
+    n = 120 if tier == 'quick' else 2500
+    for i in range(n):
+        prog = random_program(rng, rng.choice([2, 3]), 3, [KA, KB])
+        if rng.random() < 0.4:
+            prog[len(prog) + 1] = tx_program(rng, rng.randint(1, 3), rng.random() < 0.3, rng.choice([None, 1, 2]), False)
+        cfg = base_cfg(rng, rng.random() < 0.3, rng.choice(['absent', 'inline', 'file', 'both']), stats=rng.random() < 0.3,
+                       policy=rng.choice(['lrs', 'lru', 'lfu', 'none']))
+        jobs_rand.append((cfg, prog, rng.choice(['pct', 'random']), seed * 100000 + i, 0))
+    res2 = pmap(_run_random, jobs_rand, procs=14)
+    traces += [t for lst in res2 for t in lst]
+    for i, t in enumerate(traces):
+        t['id'] = i + 1
+    out.traces = len(traces)
+    out.events = sum(len(t['ev']) for t in traces)
+    verdicts, st, tr = validate_all('MonitorTrace.tla', 'MonitorTrace.cfg', traces, batch_events=40000)
+    out.states += st
+    out.transitions += tr
+    report(out, 'C08', traces, verdicts, known_findings('C08'))
+    return out.finish({'evaluations': len(traces), 'distinct_nontrivial': failed_calls,
+                       'fault_points_fired': fired,
+                       'rule': 'for each workload (mutating method x initial contents x settings) the number N of database '
+                               'statements and file operations it performs is counted in a fault-free run, then the workload is re-run N '
+                               'times with an OperationalError / OSError(EIO) injected at the n-th one (COMMIT/ROLLBACK and removals '
+                               'excluded); plus unbindable tag, unencodable text and a stream that breaks mid-read; non-trivial = the '
+                               'injected fault made a call fail (counted), every run is validated by the TLA+ monitor incl. the '
+                               'quiescent agreement of counters, rows and value files',
+                       'workloads': sorted(set(names))})
+
+
 def run(prop, tier, seed):
+    if prop == 'C08':
+        return run_c08(tier, seed)
     if prop == 'C05':
         return run_c05(tier, seed)
     if prop == 'C06':
